@@ -126,7 +126,9 @@ sx_make_symboln(const char *s, size_t len)
     if (node->data.symbol == NULL) {
         sxoom(__FILE__, __LINE__);
     }
-    strlcpy(node->data.symbol, s, n);
+    /* The symbol's characters are not terminated in the input: Copy exactly
+     * len of them; calloc() provided the terminator. */
+    memcpy(node->data.symbol, s, len);
     return node;
 }
 
